@@ -135,6 +135,8 @@ def selftest(ctx, lines, rejected):
     if r:
         bad.append((dict(r, ret='eof', res=['eof']), 'reported as success'))
     if len(bad) < 5:
+        if ctx.violations:
+            return      # (nearly) everything was rejected: the verdict stands
         raise vlib.Infra('binding self-test: no suitable accepted records to corrupt')
     acc, rej = validate(ctx, [json.dumps(a, separators=(',', ':')) for a, _ in bad])
     got = {}
@@ -185,6 +187,13 @@ def run(ctx):
         if st != 'ok' or len(l1) != 1:
             raise vlib.Infra('pinned witness did not run: %s %s' % (st, err[-500:]))
         plines.append((c, l1[0]))
+    # a driver process that died inside an enumeration case: rerun that case alone; if it dies again it is a panic
+    for c, err in base.CRASHED[:6]:
+        st, l2, err2 = base.run_alone(ctx, exe, c, 'crash%d' % c['id'])
+        if st == 'crash':
+            ident = dict(identity(dict(c, sf=-1, ff=0)), enum=c['enum'])
+            ctx.report(ident, '%s(%s) input=%r: the process crashes (panic in a goroutine of the code under test) during fault enumeration: %s'
+                       % (c['mode'], c['mt'], bytes(c['in']).decode('latin1')[:60], err2[-300:]), dict(case=ident, stderr=err2[-1500:]))
     # ---- TV
     accepted, rejects = validate(ctx, lines)
     recs = None
